@@ -1,6 +1,6 @@
 (* C07 -- definitions freeze at first execution; clones are fully isolated.
    Only the property theorems; proofs are in proofs/EngineFacts.v. *)
-From V Require Import lib.Base model.TContext model.TTree model.TEscaper model.Engine spec.EngineSpec proofs.EngineFacts proofs.EngineHistFacts proofs.EngineInvFacts proofs.EngineOkFacts proofs.EngineIsoFacts proofs.EngineOwnFacts.
+From V Require Import lib.Base model.TContext model.TTree model.TEscaper model.Engine spec.EngineSpec proofs.EngineFacts proofs.EngineHistFacts proofs.EngineInvFacts proofs.EngineOkFacts proofs.EngineIsoFacts proofs.EngineOwnFacts proofs.EngineResFacts.
 
 (* in EVERY world: once the set is marked executed, Parse on any of its templates fails and
    changes nothing at all *)
@@ -114,3 +114,18 @@ Theorem C07_other_sets_trees_untouched_hist : forall b ops0 ops,
   (forall nm tid, In (nm, tid) (get_common w b) -> get_text w' tid = get_text w tid).
 Proof. exact other_sets_trees_untouched_hist. Qed.
 Print Assumptions C07_other_sets_trees_untouched_hist.
+
+(* "parsing into or executing the clone never changes any result obtained from the original and vice
+   versa": after ANY history, followed by ANY history none of whose operations goes through a handle of name
+   space b, Execute and ExecuteTemplate through a handle of b answer exactly as they would have answered
+   before the second history - the same error, or execution of the same text template (whose tree is
+   untouched by C07_other_sets_trees_untouched_hist).  The bytes text/template prints from that tree are not
+   part of the model: on the implementation they are compared by the projection oracle. *)
+Theorem C07_foreign_history_keeps_result_classes : forall b ops0 ops h obj,
+  let w := run_from world0 ops0 in
+  handle w h = Some obj -> h_ns (get_tmpl w obj) = b -> other_ns_hist w b ops ->
+  let w' := run_from w ops in
+  snd (step w' (OExecute h)) = snd (step w (OExecute h)) /\
+  forall name, snd (step w' (OExecuteTemplate h name)) = snd (step w (OExecuteTemplate h name)).
+Proof. exact foreign_history_keeps_results. Qed.
+Print Assumptions C07_foreign_history_keeps_result_classes.
